@@ -254,7 +254,62 @@ def _compile_collect(self, exprs, with_kwargs=False, dict_display=False):
     return compiled_exprs, ret, keywords
 '''
 
+# after b5377ba ((unpack-mapping) without its argument is a syntax error); T_COLLECT_2 / T_COLLECT_OLD: before
 T_COLLECT = '''
+def _compile_collect(self, exprs, with_kwargs=False, dict_display=False):
+    compiled_exprs = []
+    ret = Result()
+    keywords = []
+
+    exprs_iter = iter(exprs)
+    for expr in exprs_iter:
+
+        if is_unpack("mapping", expr):
+            if len(expr) != 2:
+                raise self._syntax_error(
+                    expr, __MSG_MAPPING_ARITY__
+                )
+            ret += self.compile(expr[1])
+            if dict_display:
+                compiled_exprs.append(None)
+                compiled_exprs.append(ret.force_expr)
+            elif with_kwargs:
+                keywords.append(asty.keyword(expr, arg=None, value=ret.force_expr))
+            else:
+                raise self._syntax_error(
+                    expr, __MSG_NO_MAPPING__
+                )
+
+        elif with_kwargs and isinstance(expr, Keyword):
+            try:
+                value = next(exprs_iter)
+            except StopIteration:
+                raise self._syntax_error(
+                    expr, __MSG_NEEDS_VALUE__.format(kw=expr)
+                )
+
+            if not expr:
+                raise self._syntax_error(
+                    expr, __MSG_EMPTY_KW__
+                )
+
+            compiled_value = self.compile(value)
+            ret += compiled_value
+
+            arg = str(expr)[1:]
+            keywords.append(
+                asty.keyword(expr, arg=mangle(arg), value=compiled_value.force_expr)
+            )
+
+        else:
+            ret += self.compile(expr)
+            compiled_exprs.append(ret.force_expr)
+
+    return compiled_exprs, ret, keywords
+'''
+
+
+T_COLLECT_2 = '''
 def _compile_collect(self, exprs, with_kwargs=False, dict_display=False):
     compiled_exprs = []
     ret = Result()
@@ -374,10 +429,14 @@ def translate(repo):
         _, hc = match_fn(ctree, "_compile_collect", T_COLLECT, CP, cls="HyASTCompiler")
     except ShapeChanged as first:
         try:
-            _, hc = match_fn(ctree, "_compile_collect", T_COLLECT_OLD, CP, cls="HyASTCompiler")
+            _, hc = match_fn(ctree, "_compile_collect", T_COLLECT_2, CP, cls="HyASTCompiler")
         except ShapeChanged:
-            raise first
+            try:
+                _, hc = match_fn(ctree, "_compile_collect", T_COLLECT_OLD, CP, cls="HyASTCompiler")
+            except ShapeChanged:
+                raise first
     hc.pop("__MSG_NO_MAPPING__", None)
+    hc.pop("__MSG_MAPPING_ARITY__", None)
     cm = {k: cstr(v, k) for k, v in hc.items()}
     fnb = strip_doc(top_func(ctree, "_compile_branch", CP, cls="HyASTCompiler"))
     if len(fnb.decorator_list) != 1 or ast.dump(fnb.decorator_list[0]) != ast.dump(ast.parse("builds_model(Lazy)", mode="eval").body):
